@@ -251,10 +251,13 @@ def _C07():
 
 
 RULE_RULES = ("each run draws a valid schema (features the C++ generators accept) and either leaves it valid or appends "
-              "ONE definition breaking ONE documented composability rule (34 rule kinds: unlimited/greedy not last, "
+              "ONE definition breaking ONE documented composability rule (36 rule kinds: unlimited/greedy not last, "
               "unlimited or dynamic element type in each array kind / optional / union arm, sizer missing / late / "
-              "optional / non-integer / enum, duplicate type / field / enumerator / constant / discriminator / arm, "
-              "non-positive array size or limit, enumerator or discriminator negative or above 32 bits, optional bytes); "
+              "optional / non-integer (also through a typedef) / enum (also through a typedef), duplicate type / field / enumerator / constant / discriminator / arm, "
+              "non-positive array size or limit, enumerator or discriminator negative or above 32 bits, optional bytes); in "
+              "two thirds of the rule-breaking runs a LEGAL twin of the breaker (same type and member names, nothing "
+              "illegal) goes through the same compiler process just before or just after it and must be accepted "
+              "and importable (stale compiler state as an injected fault); "
               "valid schemas are compiled with all three generators, imported, and (every 12th) compiled with g++ "
               "-fsyntax-only against the shipped headers; distinct = distinct (schema shape, rule) pairs")
 
